@@ -81,7 +81,7 @@ theorem tri_cube_even (Lx Ly Lz : Nat) (a vx vy vz cx cy cz : Int) (hv : ST Lx L
   have e3 := legZ_iff hvx hvy hvz hcx hcy hcz hsz
   unfold cubeKeys at e1 e2 e3
   rw [ind_congr e1, ind_congr e2, ind_congr e3]
-  have := legs_even (cx - vx) (cy - vy) (cz - vz) sx sy sz hsx hsy hsz (by omega)
+  have := legs_even (cx - vx) (cy - vy) (cz - vz) sx sy sz hsx hsy hsz (fun _ _ _ => by omega)
   omega
 
 /-! ### every stabilizer is a constant-letter operator; all pairs commute -/
